@@ -467,9 +467,9 @@ pub fn exec(case: &Case2, mut log: Option<&mut Vec<String>>) -> Exec2 {
                     if exp == 0 {
                         out.counters.inc("fault.group_invalidation_unknown_name");
                     }
-                    if got != exp {
-                        return Err(Clause::new("group_count", &["C12"], format!("{op:?} returned {got}, {exp} registered caches match")));
-                    }
+                    // the count is judged last: a wrong count and a cache that was wrongly emptied / kept are
+                    // two symptoms, and each property must get to see its own
+                    let count_wrong = got != exp;
                     let mut hit = 0;
                     for fs in st.values_mut() {
                         if !registered(fs.spec) {
@@ -489,9 +489,13 @@ pub fn exec(case: &Case2, mut log: Option<&mut Vec<String>>) -> Exec2 {
                                 }
                             }
                         } else if strs != fs.listed {
-                            return Err(Clause::new("collateral_invalidation", &["C13"], format!("{op:?} changed cache {} [{}] which does not match: {:?} -> {strs:?}", fs.spec.reg_name, fs.spec.attrs, fs.listed)));
+                            let owners: &[&str] = if count_wrong { &["C13", "C12"] } else { &["C13"] };
+                            return Err(Clause::new("collateral_invalidation", owners, format!("{op:?} changed cache {} [{}] which does not match: {:?} -> {strs:?}", fs.spec.reg_name, fs.spec.attrs, fs.listed)));
                         }
                         fs.listed = strs;
+                    }
+                    if count_wrong {
+                        return Err(Clause::new("group_count", &["C12"], format!("{op:?} returned {got}, {exp} registered caches match")));
                     }
                     if hit >= 2 {
                         out.counters.inc("probe.group_invalidation_hit_2_caches");
